@@ -77,9 +77,9 @@ int main(void){ sexp ctx = sexp_make_eval_context(NULL, NULL, NULL, 0, 0);
     return bad, txt + ("MISMATCH: got %d\n" % got if bad else "agrees\n")
 
 
-def replay_readnum(spec, inputs, workdir):
+def _replay_readnum1(inputs, workdir, neg):
     """Rebuild the literal (digits of in_val in the base, then the character) and read it with the real reader."""
-    base, val, c, neg = int(inputs.get("in_base", 10)), int(inputs.get("in_val", 0)), int(inputs.get("in_c", 48)), int(inputs.get("in_neg", 0))
+    base, val, c = int(inputs.get("in_base", 10)), int(inputs.get("in_val", 0)), int(inputs.get("in_c", 48))
     pre = {2: "#b", 8: "#o", 10: "", 16: "#x"}.get(base)
     if pre is None or not (48 <= c < 127):
         return False, "no native replay for base %d / character %d" % (base, c)
@@ -111,6 +111,16 @@ int main(void){ sexp ctx = sexp_make_eval_context(NULL, NULL, NULL, 0, 0);
     else:
         return True, txt + "result is not an exact integer\n"
     return got != want, txt + ("MISMATCH: got %d\n" % got if got != want else "agrees\n")
+
+
+def replay_readnum(spec, inputs, workdir):
+    """The failing obligations do not depend on the sign: the counterexample is replayed with its own sign and with the other one."""
+    neg = int(inputs.get("in_neg", 0))
+    bad, txt = _replay_readnum1(inputs, workdir, neg)
+    if bad:
+        return bad, txt
+    bad2, txt2 = _replay_readnum1(inputs, workdir, 1 - neg)
+    return bad2, txt + txt2
 
 
 SMALL = ["-I@BUILD@/shim_small"]
